@@ -361,18 +361,27 @@ def r13_4(ctx):
         src_ok = lp.source == ("field", ("param", 1), "actions", "filter::filter_header::FilterHeaderAction")
         r.ob("fold:forward-over-actions", src_ok, f.loc(lp.line), "loop iterates %s (must be self.actions, unreversed, unfiltered)" % show(lp.source, f))
         s = Sym(f)
+        # the list is threaded through a variable V (the parameter itself, or an accumulator initialised
+        # from it): each action receives V and its result is stored back into V
         threaded = False
+        V = None
         for p in s.paths(start=lp.body, region=lp.blocks()):
             for e in p.events:
                 if e[0] == "call" and e[1] == TRAIT + "::filter":
                     args = e[2]
-                    # input list is the variable holding the previous result / the parameter
                     sets = [x for x in p.events if x[0] == "set" and x[3] == e[3]]
-                    if args[1] in (("param", 2), ("local", 2)) and sets and sets[0][1] == 2:
+                    if sets and args[1] in (("param", sets[-1][1]), ("local", sets[-1][1])):
                         threaded = True
-        r.ob("fold:threads-list", threaded, f.loc(lp.line), "each action receives the list produced by the previous one and its result replaces it")
+                        V = sets[-1][1]
+        init_ok = V == 2
+        if V is not None and V != 2:
+            for p in s.paths(start=0, stops={lp.next_block}):
+                if p.end[0] == "stop":
+                    ini = [x for x in p.events if x[0] == "set" and x[1] == V]
+                    init_ok = bool(ini) and ini[-1][3] in (("param", 2), ("local", 2))
+        r.ob("fold:threads-list", threaded and init_ok, f.loc(lp.line), "each action receives the list produced by the previous one (starting from the caller's list) and its result replaces it")
         rets = {p.end[1] for p in s.paths(start=lp.exit) if p.end[0] == "ret"}
-        r.ob("fold:returns-list", rets == {("param", 2)} or rets == {("local", 2)}, f.site, "returns %s" % [show(x, f) for x in rets])
+        r.ob("fold:returns-list", V is not None and rets <= {("param", V), ("local", V)} and bool(rets), f.site, "returns %s" % [show(x, f) for x in rets])
 
     ctx.run_rule("R13.4", "FilterHeaderAction::filter folds in forward order", body, floor=4)
 
